@@ -8,13 +8,16 @@ from .c01 import Spec, _rotmin
 
 PID = "C15"
 TITLE = "Border and feature extraction are exact"
-LEAN_MODULES = ["Mouette.Props.C15", "Mouette.Props.C15Border"]
+LEAN_MODULES = ["Mouette.Props.C15", "Mouette.Props.C15Border", "Mouette.Props.C15Runs"]
 REQUIRED_THEOREMS = [
     "thresholds_bridge", "sharp_threshold_is_sixty_degrees", "hard_threshold_is_arccos", "cosLt_unit_iff", "cosLt_scale_invariant", "flagged_iff", "feature_set_exact", "feature_set_only_border",
     "feature_vertices_spec", "feature_degree_spec", "local_feat_spec",
     "indexMap_lookup", "indexMap_injective", "boundary_index_map_roundtrip", "walk_closed_lengths",
     # round 2
     "first_ring_neighbour", "border_cycle_correct", "border_cycles_all_correct", "borderWfB_sound",
+    # round 3
+    "generated_run_resets", "nth_run_eq_fresh", "fresh_run_is_stateless", "feature_set_exact_after_history",
+    "boundary_edges_collected", "boundary_polyline_correct", "border_umbrella_of_umbrella",
 ]
 TRUSTED = [
     "Lean 4.33.0 kernel; axioms ⊆ {propext, Classical.choice, Quot.sound}",
@@ -37,14 +40,42 @@ RULE = ("border: random manifold surfaces with 0..4+ border loops, 1-2 component
 # ------------------------------------------------------------------------------------------------
 # building
 # ------------------------------------------------------------------------------------------------
+VREPS = ["vec", "list", "ndarray", "tuple", "int", "npint"]   # how the coordinates are handed to RawMeshData
+FREPS = ["list", "tuple", "ndarray", "npint"]                 # how faces / declared hard edges are handed over
+
+
+def _coords(case):
+    """coordinates as handed to mouette. "int"/"npint": case["V"] holds integer-valued floats (a surface scaled by its
+    common dyadic denominator: same normals and angles), handed over as Python ints / numpy int64 arrays."""
+    import numpy as np
+    import mouette as M
+    r = case.get("vrep", "vec")
+    V = case["V"]
+    if r == "list": return [list(v) for v in V]
+    if r == "tuple": return [tuple(v) for v in V]
+    if r == "ndarray": return [np.array(v, dtype=float) for v in V]
+    if r == "int": return [[int(x) for x in v] for v in V]
+    if r == "npint": return [np.array([int(x) for x in v], dtype=np.int64) for v in V]
+    return [M.Vec(*v) for v in V]
+
+
+def _ids(rows, rep):
+    import numpy as np
+    if rep == "tuple": return [tuple(r) for r in rows]
+    if rep == "ndarray": return [np.array(r) for r in rows]
+    if rep == "npint": return [[np.int64(x) for x in r] for r in rows]
+    return [list(r) for r in rows]
+
+
 def _mesh(case, hard_pairs=()):
     import mouette as M
     import mouette.config as cfg
     cfg.sort_neighborhoods = True
     d = M.mesh.RawMeshData()
-    d.vertices += [M.Vec(*v) for v in case["V"]]
-    if hard_pairs: d.edges += [tuple(p) for p in hard_pairs]
-    d.faces += [list(f) for f in case["F"]]
+    d.vertices += _coords(case)
+    fr = case.get("frep", "list")
+    if hard_pairs: d.edges += [tuple(p) for p in hard_pairs] if fr == "list" else _ids(hard_pairs, fr)
+    d.faces += _ids(case["F"], fr)
     return M.mesh.SurfaceMesh(d)
 
 
@@ -125,10 +156,27 @@ def _run(case):
     res = {"spec": spec}
     if case["t"] == "b":
         m = _mesh(case)
+        used = case.get("used")
+        if used:
+            import numpy as np
+            # the mesh object has a history: lazy caches filled by other queries, a detector run, an earlier extraction,
+            # then (optionally) the documented resets
+            try:
+                if "queries" in used: m.connectivity.vertex_to_faces(0); m.interior_edges; m.connectivity.face_to_faces(0)
+                if "detector" in used:
+                    # (normals injected: the polygons of this family may start with three collinear vertices, for which
+                    #  face_normals is undefined - that is C07's business, the detector run is only history here)
+                    na = m.faces.create_attribute("normals", float, 3)
+                    for f in range(len(case["F"])): na[f] = M.Vec(0.0, 0.0, 1.0)
+                    M.processing.FeatureEdgeDetector(verbose=False, compute_feature_graph=False, flag_corners=False).run(m)
+                if "extract" in used: M.processing.extract_boundary_of_surface(m); M.processing.extract_border_cycle_all(m)
+                if "clear" in used: m.connectivity.clear(); m.clear_boundary_data()
+            except Exception as e:  # noqa
+                res["used_err"] = e
         per = []
         for s in case["starts"]:
             try:
-                r = M.processing.extract_border_cycle(m, s)
+                r = M.processing.extract_border_cycle(m, np.int64(s) if (used and "npstart" in used) else s)
                 per.append((s, r, None))
             except Exception as e:  # noqa
                 per.append((s, None, e))
@@ -144,20 +192,30 @@ def _run(case):
         if case.get("normals"):
             attr = m.faces.create_attribute("normals", float, 3)
             for f, n in enumerate(case["normals"]): attr[f] = M.Vec(*n)
-        # history: earlier detector runs on the SAME mesh object (other options, other injected normals). The statement is about
-        # each run, whatever ran before: attributes left on the mesh by an earlier run must not leak into this one.
+        # history: earlier detector runs on the SAME mesh object (other options, other injected normals), made with another
+        # detector object or (same_det) with the very detector object observed at the end, whose option attributes are set
+        # for that run. The statement is about each run, whatever ran before: neither the attributes left on the mesh nor the
+        # containers of a used detector may leak into this one.
+        det = M.processing.FeatureEdgeDetector(only_border=case["only_border"], flag_corners=case["flag_corners"],
+                                               corner_order=case["order"], compute_feature_graph=case.get("graph", False), verbose=False)
         for pr in case.get("prior") or []:
             try:
                 if case.get("normals") and pr.get("normals"):
                     for f, n in enumerate(pr["normals"]): attr[f] = M.Vec(*n)
-                M.processing.FeatureEdgeDetector(only_border=pr["only_border"], flag_corners=pr["flag_corners"], corner_order=pr["order"],
-                                                 compute_feature_graph=pr.get("graph", False), verbose=False).run(m)
+                if pr.get("same_det"):
+                    det.only_border, det.flag_corners, det.corner_order = pr["only_border"], pr["flag_corners"], pr["order"]
+                    det.compute_feature_graph = pr.get("graph", False)
+                    det.run(m)
+                else:
+                    M.processing.FeatureEdgeDetector(only_border=pr["only_border"], flag_corners=pr["flag_corners"], corner_order=pr["order"],
+                                                     compute_feature_graph=pr.get("graph", False), verbose=False).run(m)
             except Exception as e:  # noqa
                 res["prior_err"] = e
         if case.get("normals") and case.get("prior"):
             for f, n in enumerate(case["normals"]): attr[f] = M.Vec(*n)
-        det = M.processing.FeatureEdgeDetector(only_border=case["only_border"], flag_corners=case["flag_corners"],
-                                               corner_order=case["order"], compute_feature_graph=case.get("graph", False), verbose=False)
+        det.only_border, det.flag_corners, det.corner_order = case["only_border"], case["flag_corners"], case["order"]
+        det.compute_feature_graph = case.get("graph", False)
+        if case.get("conn_clear"): m.connectivity.clear(); m.clear_boundary_data()   # documented reset of the lazy caches
         try: det.run(m); res["err"] = None
         except Exception as e: res["err"] = e  # noqa
         res["m"], res["det"] = m, det
@@ -226,13 +284,16 @@ def model_request(case):
     if case["t"] == "b":
         toks += [str(len(case["starts"]))] + [str(s) for s in case["starts"]]
         return " ".join(toks)
-    toks.append("1" if case["only_border"] else "0")
-    dq = edge_dq(case, spec)
-    toks.append(str(len(dq)))
     hard = set(case["hard"])
-    for e, x in enumerate(dq):
-        d, q = x if x is not None else (Fraction(0), Fraction(1))
-        toks += ["1" if e in hard else "0", _frac(d), _frac(q)]
+    runs = [(1 if pr.get("same_det") else 0, pr["only_border"], dict(case, normals=pr.get("normals") or case.get("normals")))
+            for pr in (case.get("prior") or [])] + [(1, case["only_border"], case)]
+    toks.append(str(len(runs)))
+    for sd, ob, cc in runs:
+        dq = edge_dq(cc, spec)
+        toks += [str(sd), "1" if ob else "0", str(len(dq))]
+        for e, x in enumerate(dq):
+            d, q = x if x is not None else (Fraction(0), Fraction(1))
+            toks += ["1" if e in hard else "0", _frac(d), _frac(q)]
     toks.append(str(len(case["V"])))
     for v in range(len(case["V"])):
         x = corner_x(case, spec, v) if case["flag_corners"] and spec.at[v] else None
@@ -293,6 +354,8 @@ def _oracle(case):
         if key not in seen: seen.add(key); out.append({"key": key, "what": what, "detail": str(detail)[:300]})
     k2 = lambda a, b: (min(a, b), max(a, b))
     ekey = lambda e: None if e is None else k2(*m.edges[e])
+    if r.get("used_err") is not None:
+        add(f"C15/border/used-mesh/raises/{type(r['used_err']).__name__}", "a query / detector run / extraction made on the mesh before raised", r["used_err"])
     if case["t"] == "b":
         loops = border_loops(spec)
         loop_of = {v: i for i, L in enumerate(loops) for v in L}
@@ -399,7 +462,12 @@ def _border_case(rng, max_faces):
     starts = sorted(spec.border_v)
     interior = [v for v in range(spec.nv) if v not in spec.border_v]
     if interior and rng.random() < 0.5: starts.append(rng.choice(interior))
-    return {"t": "b", "V": s["V"], "F": s["F"], "starts": starts, "tag": s["tag"]}
+    c = {"t": "b", "V": s["V"], "F": s["F"], "starts": starts, "tag": s["tag"]}
+    if rng.random() < 0.35:
+        c["used"] = sorted(set(rng.sample(["queries", "detector", "extract", "clear", "npstart"], rng.randint(1, 3))))
+    if rng.random() < 0.3:
+        c["vrep"] = rng.choice(VREPS[1:4]); c["frep"] = rng.choice(FREPS)
+    return c
 
 
 SPECIAL_Z = [0.5, 0.5 - 2.0 ** -20, 0.5 + 2.0 ** -20, 0.8, 0.8 - 2.0 ** -20, 0.8 + 2.0 ** -20, 0.25, 0.75, 0.9, -0.5, 0.0, 1.0]
@@ -468,12 +536,27 @@ def _feat_case(rng, max_faces):
         # the detector has already run on this mesh object, 1-2 times, with other options (and other injected normals)
         case["prior"] = []
         for _ in range(rng.randint(1, 2)):
-            pr = {"only_border": rng.random() < 0.25, "flag_corners": rng.random() < 0.5, "order": rng.choice([4, 6, 3]), "graph": rng.random() < 0.2}
+            pr = {"only_border": rng.random() < 0.25, "flag_corners": rng.random() < 0.5, "order": rng.choice([4, 6, 3]), "graph": rng.random() < 0.2,
+                  "same_det": rng.random() < 0.45}
             if normals is not None:
                 pr["normals"] = [_unit_with_z(rng, rng.choice([-0.5, 0.0, 0.25, 0.6, 0.9, 1.0])) for _ in normals]
             case["prior"].append(pr)
         if case["prior"][-1]["only_border"] and rng.random() < 0.5: case["prior"][-1]["only_border"] = False
         if rng.random() < 0.4: case["only_border"] = True
+    if rng.random() < 0.15: case["conn_clear"] = True
+    # input representation: coordinates as lists / tuples / numpy arrays, or - for the streams that use the mesh's own geometry -
+    # as INTEGERS (the surface scaled by the common denominator of its dyadic coordinates: same normals, same angles);
+    # faces and declared hard edges as tuples / numpy arrays / numpy scalars
+    r = rng.random()
+    if r < 0.25:
+        case["vrep"] = rng.choice(VREPS[1:4])
+    elif r < 0.45 and normals is None:
+        den = 1
+        while any(abs(x * den - round(x * den)) > 0 for v in case["V"] for x in v) and den < 2 ** 20: den *= 2
+        if den < 2 ** 20 and max(abs(x) for v in case["V"] for x in v) * den < 2 ** 24:
+            case["V"] = [[float(round(x * den)) for x in v] for v in case["V"]]
+            case["vrep"] = rng.choice(["int", "npint"])
+    if rng.random() < 0.3: case["frep"] = rng.choice(FREPS[1:])
     # own geometry: stay away from the thresholds (float normalisation); injected normals: every interior edge has one face
     # with normal (0,0,1), so the float dot product IS the z of the other normal, exactly - on-threshold values are kept
     if normals is None:
@@ -517,6 +600,7 @@ def classify(case, obs):
     if case["t"] == "b":
         ks += ["loops:" + str(min(st["loops"], 4)), "components:" + str(min(st["components"], 3)), "starts", ]
         if any(s for s in case["starts"] if s not in Spec(len(case["V"]), case["F"]).border_v): ks.append("interior-start")
+        ks.append("mesh-history:" + ("fresh" if not case.get("used") else "+".join(case["used"])))
     else:
         spec = Spec(len(case["V"]), case["F"])
         ks += ["stream:" + case["tag"].split(":")[0], "only_border:" + str(case["only_border"]), "flag_corners:" + str(case["flag_corners"]),
@@ -526,6 +610,11 @@ def classify(case, obs):
             c = cos_float(x)
             ks.append("cos:" + ("=0.5" if c == 0.5 else "=0.8" if c == 0.8 else "<0.5" if c < 0.5 else "0.5-0.8" if c < 0.8 else ">0.8"))
         ks.append("history:" + ("fresh-mesh" if not case.get("prior") else f"{len(case['prior'])}-earlier-runs"))
+        if any(p.get("same_det") for p in case.get("prior") or []): ks.append("history:same-detector-object-reused")
+        if case.get("conn_clear"): ks.append("history:connectivity.clear()-before-run")
+    ks += ["coords-as:" + case.get("vrep", "vec"), "ids-as:" + case.get("frep", "list")]
+    if case["t"] == "f":
+        pass
     if obs.startswith("err"): ks.append(obs.split(" ")[0])
     return ks
 
@@ -588,15 +677,29 @@ def search_on_break(rng, broken, mismatches):
 # ------------------------------------------------------------------------------------------------
 # translated fragment: the thresholds
 # ------------------------------------------------------------------------------------------------
+def _const_fraction(node, src, where):
+    """exact value of a numeric literal or of +,-,*,/ over numeric literals (`1/2`, `0.5`, `5e-1`); anything else is refused"""
+    if isinstance(node, ast.Constant) and isinstance(node.value, (int, float)) and not isinstance(node.value, bool):
+        return Fraction(ast.get_source_segment(src, node))
+    if isinstance(node, ast.UnaryOp) and isinstance(node.op, (ast.USub, ast.UAdd)):
+        v = _const_fraction(node.operand, src, where); return -v if isinstance(node.op, ast.USub) else v
+    if isinstance(node, ast.BinOp) and isinstance(node.op, (ast.Add, ast.Sub, ast.Mult, ast.Div)):
+        a, b = _const_fraction(node.left, src, where), _const_fraction(node.right, src, where)
+        if isinstance(node.op, ast.Add): return a + b
+        if isinstance(node.op, ast.Sub): return a - b
+        if isinstance(node.op, ast.Mult): return a * b
+        if b == 0: raise T.TranslateError(f"{where}: division by zero in DOT_THRESHOLD")
+        return a / b
+    raise T.TranslateError(f"{where}: DOT_THRESHOLD is not a numeric literal expression")
+
+
 def _threshold_site(tree, src, fn_name, want_rhs):
     fn = T.find_def(tree, f"FeatureEdgeDetector.{fn_name}")
     lit = None
     for n in ast.walk(fn):
         if isinstance(n, ast.Assign) and len(n.targets) == 1 and isinstance(n.targets[0], ast.Name) and n.targets[0].id == "DOT_THRESHOLD":
             if lit is not None: raise T.TranslateError(f"{fn_name}: DOT_THRESHOLD assigned twice")
-            if not (isinstance(n.value, ast.Constant) and isinstance(n.value.value, (int, float)) and not isinstance(n.value.value, bool)):
-                raise T.TranslateError(f"{fn_name}: DOT_THRESHOLD is not a numeric literal")
-            lit = Fraction(ast.get_source_segment(src, n.value))
+            lit = _const_fraction(n.value, src, fn_name)
     if lit is None: raise T.TranslateError(f"{fn_name}: DOT_THRESHOLD not found")
     cmps = [n for n in ast.walk(fn) if isinstance(n, ast.Compare) and isinstance(n.left, ast.Call)
             and isinstance(n.left.func, ast.Attribute) and n.left.func.attr == "dot"]
@@ -614,9 +717,57 @@ def _threshold_site(tree, src, fn_name, want_rhs):
     return lit
 
 
+def _run_reset_site(tree):
+    """FeatureEdgeDetector.run: does it start with self.clear(), does clear() re-create the four containers, and is an existing
+    edge attribute "feature" cleared before the passes?  Any other shape is refused."""
+    run = T.find_def(tree, "FeatureEdgeDetector.run")
+    clr = T.find_def(tree, "FeatureEdgeDetector.clear")
+    body = [st for st in run.body if not (isinstance(st, ast.Expr) and isinstance(st.value, ast.Constant))]
+    calls = [n for n in ast.walk(run) if isinstance(n, ast.Call) and ast.unparse(n.func) == "self.clear"]
+    if calls:
+        if not (body and isinstance(body[0], ast.Expr) and body[0].value is calls[0] and len(calls) == 1):
+            raise T.TranslateError("run(): self.clear() is not the first statement")
+        self_clear = True
+    else:
+        self_clear = False
+    want = {"feature_vertices": "set()", "feature_edges": "set()", "feature_degrees": "Attribute(int)", "local_feat_edges": "dict()"}
+    got = {}
+    for st in clr.body:
+        if isinstance(st, ast.Assign) and len(st.targets) == 1 and ast.unparse(st.targets[0]).startswith("self."):
+            got[ast.unparse(st.targets[0])[5:]] = ast.unparse(st.value)
+    if any(got.get(k) != v for k, v in want.items()):
+        raise T.TranslateError(f"clear(): containers are not re-created as expected: {got}")
+    # the has_attribute / get_attribute (+ .clear()) / create_attribute branch for mesh.edges "feature" (any local variable name)
+    ifs = [st for st in ast.walk(run) if isinstance(st, ast.If) and ast.unparse(st.test).replace('"', "'") == "mesh.edges.has_attribute('feature')"]
+    if len(ifs) != 1: raise T.TranslateError("run(): `if mesh.edges.has_attribute('feature')` branch not found (or not unique)")
+    b = [ast.unparse(x).replace('"', "'") for x in ifs[0].body]
+    o = [ast.unparse(x).replace('"', "'") for x in ifs[0].orelse]
+    if not (b and isinstance(ifs[0].body[0], ast.Assign) and isinstance(ifs[0].body[0].targets[0], ast.Name)):
+        raise T.TranslateError(f"run(): unexpected branch body {b}")
+    X = ifs[0].body[0].targets[0].id
+    if o != [f"{X} = mesh.edges.create_attribute('feature', bool)"]:
+        raise T.TranslateError(f"run(): unexpected else-branch {o}")
+    if b == [f"{X} = mesh.edges.get_attribute('feature')", f"{X}.clear()"]: edge_clear = True
+    elif b == [f"{X} = mesh.edges.get_attribute('feature')"]: edge_clear = False
+    else: raise T.TranslateError(f"run(): unexpected branch body {b}")
+    # the three passes must be fed with that attribute, after the branch
+    asg = [n for n in ast.walk(run) if isinstance(n, ast.Assign) and ast.unparse(n.targets[0]) == X
+           and isinstance(n.value, ast.Call) and ast.unparse(n.value.func).startswith("self._add_")]
+    passes = [ast.unparse(n.value.func) for n in asg]
+    if sorted(passes) != sorted(["self._add_hard_edges_to_features", "self._add_sharp_angles_to_features", "self._add_border_to_features"]) \
+            or min(n.lineno for n in asg) < ifs[0].lineno or any([ast.unparse(a) for a in n.value.args] != ["mesh", X] for n in asg):
+        raise T.TranslateError(f"run(): the three passes are not applied once each to the opened attribute: {passes}")
+    return self_clear, edge_clear
+
+
 def translate():
     tree, src = T.load("mouette/processing/features.py")
     vals = {}
+    s3 = T.site("features.py: FeatureEdgeDetector.run/clear resets (self.clear() first; existing edge attribute 'feature' .clear()ed)",
+                lambda: vals.setdefault("resets", _run_reset_site(tree)) and {"self_clear": vals["resets"][0], "edge_clear": vals["resets"][1]})
+    sc, ec = vals.get("resets", (True, True))
+    T.write_generated("C15Run", "def runFlags : Mouette.Features.RunFlags := { selfClear := %s, edgeClear := %s }\nend Mouette.Generated.C15\n"
+                      % ("true" if sc else "false", "true" if ec else "false"), "import Mouette.Model.FeatRuns\nnamespace Mouette.Generated.C15\n")
     s1 = T.site("features.py: _add_sharp_angles_to_features DOT_THRESHOLD / `dot(N1,N2) < DOT_THRESHOLD`",
                 lambda: vals.setdefault("sharp", _threshold_site(tree, src, "_add_sharp_angles_to_features", "DOT_THRESHOLD")) and {"value": str(vals["sharp"])})
     s2 = T.site("features.py: _add_hard_edges_to_features DOT_THRESHOLD / `dot(N1,N2) < 1 - DOT_THRESHOLD`",
@@ -627,7 +778,7 @@ def translate():
     body = (f"def sharpDot : Rat := {lean_rat(sharp)}\ndef hardDelta : Rat := {lean_rat(hard)}\n"
             "def thresholds : Mouette.Features.Thresholds := { sharp := sharpDot, hardDelta := hardDelta }\n")
     T.write_generated("C15Thresholds", body + "end Mouette.Generated.C15\n", "import Mouette.Model.Features\nnamespace Mouette.Generated.C15\n")
-    return [s1, s2]
+    return [s1, s2, s3]
 
 
 MANIFEST = {
